@@ -458,10 +458,15 @@ where
     fn sample(&mut self) -> usize {
         let r: T = self.rng.random();
         let mut cum: T = T::zero();
-        let mut k = self.probs.len() - 1;
+        // Fallback for r >= (rounded) total mass: the last category that has positive probability.
+        let mut k = self
+            .probs
+            .iter()
+            .rposition(|&p| p > T::zero())
+            .unwrap_or(self.probs.len() - 1);
         for (i, &p) in self.probs.iter().enumerate() {
             cum += p;
-            if r <= cum {
+            if r < cum {
                 k = i;
                 break;
             }
